@@ -730,3 +730,71 @@ func parkedWaiter(r *ev.Run) {
 		r.Nontrivial("parked-waiter")
 	})
 }
+
+// listAfterOwnAdd: the caller's ordering function is slow (it is the caller's code), so a listing takes a while.
+// While one client's listing is under way another client adds a key, gets the acknowledgement, and lists: its listing
+// was requested after its add was acknowledged, so it contains the key — whoever else was listing at that moment.
+func listAfterOwnAdd(r *ev.Run) {
+	c := r.Case("list-after-own-add", 0)
+	if c == nil {
+		return
+	}
+	r.Eval(1)
+	r.Guard(c, "listing after an acknowledged add, beside a slow listing", nil, func() {
+		ag := wire.New()
+		defer ag.Close()
+		sock, err := ag.Listen()
+		if err != nil {
+			r.Inconclusive(err.Error())
+			return
+		}
+		pool := gen.Pool()
+		for i := 0; i < 6; i++ {
+			ag.Keyring.Add(agent.AddedKey{PrivateKey: pool[i].Priv, Comment: fmt.Sprintf("k%d", i)})
+		}
+		slow := func(a, b ssh.PublicKey) bool {
+			time.Sleep(2 * time.Millisecond)
+			return bytes.Compare(a.Marshal(), b.Marshal()) < 0
+		}
+		s, err := shimagent.New(shimagent.Option{Address: sock, PubKeyComp: slow})
+		if err != nil {
+			r.Violation(c, "shim-construction-fails-without-fault", err.Error(), nil)
+			return
+		}
+		for round := 0; round < 8; round++ {
+			k := pool[8+round%4]
+			s.Remove(k.Pub)
+			n0 := ag.NumRequests()
+			bDone := make(chan struct{})
+			go func() { defer close(bDone); s.List() }()
+			// wait until the other client's listing has got its reply from the underlying agent (it is sorting now)
+			deadline := time.Now().Add(ev.OpTimeout())
+			for ag.NumRequests() == n0 && time.Now().Before(deadline) {
+				time.Sleep(100 * time.Microsecond)
+			}
+			time.Sleep(3 * time.Millisecond)
+			if err := s.Add(agent.AddedKey{PrivateKey: k.Priv, Comment: "just added"}); err != nil {
+				r.Violation(c, "add-fails-without-fault", err.Error(), nil)
+				return
+			}
+			l, err := s.List()
+			<-bDone
+			if err != nil {
+				r.Violation(c, "list-fails-without-fault", err.Error(), nil)
+				return
+			}
+			found := false
+			for _, id := range l {
+				if bytes.Equal(id.Blob, k.Pub.Marshal()) {
+					found = true
+				}
+			}
+			if !found {
+				r.Violation(c, "history-not-linearizable:list-after-own-add", fmt.Sprintf("round %d: a client's Add was acknowledged, its List (requested afterwards) returned %d identities without the key it had added; another client's listing was under way", round, len(l)), nil)
+				return
+			}
+		}
+		r.Count("listings requested after an acknowledged add, beside another client's slow listing: contain the key", 8)
+		r.Nontrivial("list-after-own-add")
+	})
+}
